@@ -6,6 +6,7 @@ import Thanos.Model.Gate
 import Thanos.Model.Capnp
 import Thanos.Lemmas.Quorum
 import Thanos.Lemmas.Capnp
+import Thanos.Lemmas.CapnpOrder
 import Thanos.Props.C22
 import Thanos.Props.C23
 import Thanos.Props.C24
